@@ -6,9 +6,9 @@ from vcheck import Case, hx, parse_vals, compare_lines, tokf
 PID = "C03"
 EPS = 2.0 ** -53
 TRACE_CAP = 520          # harness and driver print the full trace up to this many evaluations, else min/max
-RULE = ("one case = one call Integrate(f,a,b,eps,depth) (ops swap/epssign: two calls; op seq: two to six calls of Integrate with explicit "
+RULE = ("one case = one call Integrate(f,a,b,eps,depth) (ops swap/epssign: two calls; op seq: two to eight calls of Integrate with explicit "
         "or default depth, of the \"Adaptive-Simpson\" string overload and of Find_Epsilon made in one process, some of them abandoned by "
-        "their integrand; op nest: one call whose integrand itself calls the integrator at every abscissa); non-trivial = the recursion "
+        "their integrand, with unrelated limits, the same limits, or limits that abut / share an end with those of the call before; op nest: one call whose integrand itself calls the integrator at every abscissa); non-trivial = the recursion "
         "tree of at least one (outer) call has a split node (more than 5 integrand evaluations) or a leaf forced by the depth limit "
         "(non-convergence warning); distinct by case text")
 LEVEL_TEXT = ("Theorems (Coq, over the reals, for all inputs): exactness on every polynomial of degree <= 5 for every epsilon, depth and "
@@ -16,7 +16,9 @@ LEVEL_TEXT = ("Theorems (Coq, over the reals, for all inputs): exactness on ever
               "irrelevant; every evaluation abscissa lies in [min(a,b),max(a,b)] and there are at most 2^(depth+2)+1 of them, for every "
               "integrand; the same for the default depth and for the \"Adaptive-Simpson\" method of the string overload; in a sequence of "
               "calls made in one process every answer is the answer of that call made alone (the model's state is empty, and the "
-              "correspondence check runs such sequences through the library, including calls that their integrand abandons by an exception); "
+              "correspondence check runs such sequences through the library, including calls that their integrand abandons by an exception, "
+              "and chains of calls whose limits abut exactly or share an end, each with its own integrand: C03_piecewise_quintic_exact, "
+              "C03_abutting_pieces_additive); "
               "an integrand that itself calls the integrator (re-entrant use, as Integrate_2D does) is an ordinary integrand for the outer call "
               "and each inner call obeys its own count and location bounds and returns what it returns when made alone (C03_reentrant_outer, "
               "C03_reentrant_inner; checked on the library by running nested requests and repeating every inner request outside the outer call). The 4*epsilon error bound is a theorem at full strength (C03_error_bound): for every integrand with four derivatives "
@@ -382,6 +384,161 @@ def gen_seq(rng, dmax, cap):
     return Case(f"seq {len(calls)} " + " ".join(text), ("seq", "seq:" + kinds[:2] + ("+" if len(kinds) > 2 else "")))
 
 
+# ---------------------------------------------------------------- chains: consecutive calls whose limits are related
+REGULAR = ("exp", "cosh", "invpow", "pow")
+
+
+def variant_fun(rng, fam, params):
+    """another member of the same estimator-regular family that satisfies the factor-four condition on every interval on which
+    the given member does (smaller rate / exponent closer to the one with constant fourth derivative)"""
+    u = rng.uniform(0.2, 0.95)
+    if fam == "exp":
+        w = params[0] * u * rng.choice([-1, 1])
+        if len(params) > 1: return fam, [w, params[1]], f"exp * {C(w)} - x {C(params[1])}"
+        return fam, [w], f"exp * {C(w)} x"
+    if fam == "cosh":
+        w = params[0] * u
+        if len(params) > 1: return fam, [w, params[1]], f"cosh * {C(w)} - x {C(params[1])}"
+        return fam, [w], f"cosh * {C(w)} x"
+    if fam == "invpow":
+        s, k = params; k = k * u
+        return fam, [s, k], f"pow + x {C(s)} {hx(-k)}"
+    p = params[0]
+    p = 4 + (p - 4) * u if p != 4.0 else 4 + rng.choice([-1, 1]) * 0.2 * u
+    return "pow", [p], f"pow x {hx(p)}"
+
+
+def fun_scale(f, a, b):
+    """|b-a| * max|f| over the first three abscissae (generator side: choice of epsilon only)"""
+    vals = [abs(f(x)) for x in (a, b, (a + b) / 2)]
+    m = max([v for v in vals if v == v and v != math.inf] or [0.0])
+    s = abs(b - a) * m
+    return s if 0 < s < 1e300 else None
+
+
+def chain_poly(rng, ks, far):
+    """polynomial of degree <= 5 in x - s, s a knot (or 0), coefficients on the natural scale of the whole knot range"""
+    s = rng.choice(ks + ks + ([] if far else [0.0]))
+    T = max(abs(ks[0] - s), abs(ks[-1] - s), ks[-1] - ks[0])
+    deg = rng.choice([0, 1, 2, 3, 4, 5, 5, 5])
+    mag = 10 ** rng.uniform(-3, 3)
+    cs = [(rng.choice([-1, 1]) * mag * 10 ** rng.uniform(-2, 2) / T ** k if rng.random() < 0.85 else 0.0) if k <= deg else 0.0 for k in range(6)]
+    if rng.random() < 0.2: cs = [float(rng.randint(-9, 9)) / 4 if k <= deg else 0.0 for k in range(6)]
+    cs = [c if abs(c) < 1e250 else 0.0 for c in cs]
+    if s == 0.0 and rng.random() < 0.5: return "quintic", cs, (horner(cs) if rng.random() < 0.6 else powsum(cs))
+    return "qshift", [s] + cs, horner(cs, f"- x {C(s)}")
+
+
+def gen_chain(rng, dmax, cap):
+    """2..8 calls whose limits are related to those of the call before: the pieces between consecutive knots k0 < k1 < ... (a piecewise
+    defined function integrated piece by piece: the lower limit of a call is bit for bit the upper limit of the call before), in
+    ascending or descending order, each piece in either orientation; intervals with a common lower / upper limit; up and down again;
+    random pieces and unions of adjacent pieces.  Knots: the limits of a base request, its midpoint and quarter points (abscissae the
+    integrator itself evaluates), interior points, and continuations beyond both limits.  Consecutive calls mostly have different
+    integrands: polynomials of degree <= 5 (exactness is evaluated on every call), members of one estimator-regular family on
+    sub-intervals of the base interval (error bound), arbitrary integrands.  Kinds as in gen_seq, with Find_Epsilon, equal-limits
+    and abandoned calls put between abutting calls."""
+    r = rng.random()
+    base = None
+    while base is None:
+        base = (gen_quintic(rng, dmax) if r < 0.2 else gen_qshift(rng, dmax, far=rng.random() < 0.4) if r < 0.45
+                else gen_regular(rng, dmax, far=rng.random() < 0.2) if r < 0.85 else gen_any(rng, dmax))
+    a, b, eps0, depth0, fam, params, fx = base
+    lo, hi = min(a, b), max(a, b); w = hi - lo
+    far = w < 1e-3 * max(abs(lo), abs(hi))
+    regular = fam in REGULAR
+    c = (lo + hi) / 2; d = (lo + c) / 2; e = (hi + c) / 2
+    knots = {lo, hi}
+    for _ in range(rng.choice([0, 1, 1, 2, 3, 4])):
+        knots.add(rng.choice([c, c, d, e, lo + w * rng.random(), lo + w * rng.random()]))
+    def beyond(x, sgn):
+        step = min(max(w * 10 ** rng.uniform(-1.5, 1.5), 1e-6), 1e3)
+        y = x + sgn * step
+        if y == x: y = math.nextafter(x, sgn * math.inf)
+        return y
+    nl, nr = (rng.choice([0, 0, 1, 2]), rng.choice([0, 1, 1, 2])) if (not regular or rng.random() < 0.4) else (0, 0)
+    x = lo
+    for _ in range(nl): x = beyond(x, -1); knots.add(x)
+    x = hi
+    for _ in range(nr): x = beyond(x, +1); knots.add(x)
+    ks = []
+    for k in sorted(knots):          # every piece at least 1e-6 wide (the quantifier)
+        if not ks or k - ks[-1] >= 1e-6: ks.append(k)
+    while len(ks) < 3: ks.append(beyond(ks[-1], +1))
+    n = len(ks) - 1
+    # integrands: usable on every piece / on the pieces inside the base interval only
+    anywhere = [chain_poly(rng, ks, far) for _ in range(rng.choice([1, 2, 2, 3]))]
+    if rng.random() < 0.35:
+        anywhere.append(("any", [], f"+ {C(10.0)} cos - x {C(lo)}") if rng.random() < 0.4
+                        else ("any", [], any_fx(rng, rng.choice(SMOOTH_KINDS + ["pole-sqrt", "huge"]), ks[0], ks[-1])))
+    inside = []
+    if regular:
+        inside = [(fam, params, fx)] * 2 + [variant_fun(rng, fam, params) for _ in range(rng.choice([1, 2]))]
+    else:
+        anywhere += [(fam, params, fx)] * 2
+    # the intervals, as (lower knot index, upper knot index)
+    pattern = rng.choice(["up", "up", "up", "up", "down", "down", "fan", "updown", "random", "random"])
+    L = rng.randint(2, min(n, 6)) if n >= 2 else 2
+    i0 = rng.randint(0, n - L)
+    up = [(i, i + 1) for i in range(i0, i0 + L)]
+    if pattern == "up": ivs = up
+    elif pattern == "down": ivs = up[::-1]
+    elif pattern == "updown": ivs = (up + up[::-1][rng.choice([0, 1]):])[:7]
+    elif pattern == "fan":
+        ivs = [(i0, j) for j in range(i0 + 1, i0 + L + 1)] if rng.random() < 0.5 else [(j, i0 + L) for j in range(i0, i0 + L)]
+        if rng.random() < 0.5: ivs = ivs[::-1]
+    else:
+        ivs = []
+        for _ in range(rng.randint(2, 6)):
+            i = rng.randint(0, n - 1); ivs.append((i, rng.randint(i + 1, min(n, i + 2))))
+    ivs = [(i, j) for (i, j) in ivs if ks[j] - ks[i] <= 1e3]
+    if len(ivs) < 2: ivs = [(0, 1), (1, 2)]
+    orient = rng.choice(["fwd", "fwd", "rev", "mixed"])
+    text = []; kinds = ""; last = None; prev_fx = None
+    def emit(kind, la, lb, fm, pr, fxx, depth=None):
+        nonlocal last, kinds
+        f, _ = parse_fexpr(fxx.split(), 0)
+        if kind == "F":
+            prec = 10 ** rng.uniform(-12, -1)
+            last = py_find_epsilon(f, la, lb, prec)
+            text.append(f"F {hx(la)} {hx(lb)} {hx(prec)} " + fam_text(fm, pr, fxx)); kinds += "F"; return
+        sc = fun_scale(f, la, lb)
+        use_last = last is not None and rng.random() < 0.3
+        if use_last: eps = last
+        elif sc is not None and fm in REGULAR and rng.random() < 0.6: eps = sc * 10 ** rng.uniform(-12, -2) * rng.choice([1, 1, -1])
+        elif rng.random() < 0.15: eps = eps0
+        else: eps = rand_eps(rng, sc)
+        if not use_last: eps = math.copysign(min(max(abs(eps), 1e-18), 1e2), eps)
+        if depth is None: depth = rng.choice([depth0, 0, 1, 2, 3, 6, dmax])
+        if kind in ("D", "M"):     # cost control for the default depth 20: fall back to an explicit depth
+            e_eff = py_find_epsilon(f, min(la, lb), max(la, lb), 1e-9) if kind == "M" else eps
+            if not (e_eff == e_eff) or simulate_count(f, la, lb, e_eff, DEFAULT_DEPTH, cap) is None: kind = "I"
+        et = "@" if use_last else hx(eps)
+        if kind == "I": text.append(f"I {hx(la)} {hx(lb)} {et} {depth} " + fam_text(fm, pr, fxx))
+        elif kind == "X":
+            kx = rng.choice([1, 2, 3, 4, 5, 6, 7, 9, rng.randint(1, 40), 2 ** (max(depth, 0) + 2) + 1])
+            text.append(f"X {hx(la)} {hx(lb)} {et} {depth} {kx} " + fam_text(fm, pr, fxx))
+        elif kind == "D": text.append(f"D {hx(la)} {hx(lb)} {et} " + fam_text(fm, pr, fxx))
+        else: text.append(f"M {hx(la)} {hx(lb)} " + fam_text(fm, pr, fxx))
+        kinds += kind
+    for (i, j) in ivs:
+        if len(text) >= 8: break
+        la, lb = ks[i], ks[j]
+        if orient == "rev" or (orient == "mixed" and rng.random() < 0.5): la, lb = lb, la
+        pool = anywhere + (inside + inside if lo <= ks[i] and ks[j] <= hi else [])
+        other = [g for g in pool if g[2] != prev_fx]
+        fm, pr, fxx = rng.choice(other) if other and rng.random() < 0.85 else rng.choice(pool)
+        q = rng.random()
+        if text and q < 0.08 and len(text) < 7:        # an equal-limits call at the common knot
+            emit("I", la, la, fm, pr, fxx)
+        elif text and q < 0.2 and len(text) < 7:       # Find_Epsilon on the next piece with a reference integrand
+            emit("F", la, lb, *rng.choice(pool))
+        elif q < 0.28 and len(text) < 7:               # the request abandoned by its integrand, then made again
+            emit("X", la, lb, fm, pr, fxx)
+        emit(rng.choice(["I"] * 7 + ["D", "M", "F"]), la, lb, fm, pr, fxx)
+        prev_fx = fxx
+    return Case(f"seq {len(text)} " + " ".join(text), ("seq", "chain", "chain:" + pattern, "seq:" + kinds[:2] + ("+" if len(kinds) > 2 else "")))
+
 
 # ---------------------------------------------------------------- re-entrant integrands (the integrand calls the integrator)
 class OverBudget(Exception): pass
@@ -588,6 +745,9 @@ def generate(rng, tier):
         cs.append(Case(fam_line("findeps", a, b, 10 ** rng.uniform(-12, -1), 0, "any", [], fx).replace(" 0 any", " any", 1), ("findeps",)))
         cs.append(Case(nest_line("I", a, a, eps, depth, "I", eps, 2, "nany", [], C(0.0), C(1.0), "* x y", "y"), ("nest", "equal-limits")))
         cs.append(Case(f"seq 3 M {hx(a)} {hx(a)} any 0 {fx} D {hx(a)} {hx(a)} {hx(eps)} any 0 {fx} I {hx(a)} {hx(a)} {hx(eps)} {depth} any 0 {fx}", ("seq", "equal-limits")))
+    # calls whose limits are related to those of the call before (abutting pieces of a piecewise function, common limits, ...)
+    for k in range(6000 if big else 400):
+        cs.append(gen_chain(rng, dmax, 20000 if big else 3000))
     cs.append(Case(fam_line("int", -1.0, 2.0, 1e-6, 6, "any", [], "log x"), ("int", "nan")))
     cs.append(Case(fam_line("int", 0.0, 1.0, 1e-6, 6, "any", [], "/ c 0x1p+0 x"), ("int", "inf")))
     return cs
